@@ -5,9 +5,12 @@ package checks
 // Both run generated histories and crash images under the structural oracle (fsck.go).
 
 import (
+	"bytes"
 	"fmt"
+	"strings"
 	"sync/atomic"
 	"testing"
+	"time"
 
 	"github.com/mit-pdos/go-journal/common"
 	nt "github.com/mit-pdos/go-nfsd/nfstypes"
@@ -345,3 +348,150 @@ func TestC04Crash(t *testing.T) {
 }
 
 var _ = common.ROOTINUM
+
+// Disks with more than one block-bitmap block (32768 blocks each): allocation beyond the first bitmap block,
+// removal, restart (the allocators are rebuilt from all bitmap blocks), further allocation.  Oracle: fsck
+// (exact: marked = reachable, running allocators = on-disk bitmaps, nothing owned twice) and the bytes of every file.
+func TestC04BigDisk(t *testing.T) {
+	rapid.Check(t, func(t *rapid.T) {
+		const nb = 32768
+		size := uint64(pick(t, []int{nb + 700, nb + 4000, 2*nb + 900}, "disksize"))
+		d := NewDisk(size)
+		d.SetRecord(false)
+		s := StartSrv(d, true, false)
+		defer func() { s.Stop() }()
+		var hist []string
+		fail := func(format string, a ...any) {
+			failf(t, "C04", map[string]any{"disk": size, "history": hist}, format, a...)
+		}
+		type bf struct {
+			name   string
+			fh     nt.Nfs_fh3
+			tag    uint32
+			blocks uint64
+		}
+		var files []*bf
+		ntag := uint32(0)
+		mk := func(blocks uint64) bool {
+			ntag++
+			f := &bf{name: fmt.Sprintf("f%d", ntag), tag: ntag, blocks: blocks}
+			api := s.API()
+			c := api.NFSPROC3_CREATE(nt.CREATE3args{Where: nt.Diropargs3{Dir: s.RootFH(), Name: nt.Filename3(f.name)}})
+			if c.Status != nt.NFS3_OK {
+				return false
+			}
+			f.fh = c.Resok.Obj.Handle
+			data := patternData(f.tag, blocks*BlockSize)
+			for off := uint64(0); off < blocks; off += 400 {
+				n := blocks - off
+				if n > 400 {
+					n = 400
+				}
+				w := api.NFSPROC3_WRITE(nt.WRITE3args{File: f.fh, Offset: nt.Offset3(off * BlockSize), Count: nt.Count3(n * BlockSize), Stable: nt.UNSTABLE, Data: data[off*BlockSize : (off+n)*BlockSize]})
+				if w.Status != nt.NFS3_OK || uint64(w.Resok.Count) != n*BlockSize {
+					f.blocks = off + uint64(w.Resok.Count)/BlockSize
+					files = append(files, f)
+					return false
+				}
+			}
+			files = append(files, f)
+			hist = append(hist, fmt.Sprintf("file %s of %d blocks", f.name, blocks))
+			return true
+		}
+		crashed := false
+		verify := func(when string) {
+			var rep *FsckReport
+			o := Guard(60*time.Second, func() {
+				s.Quiesce()
+				rep = Fsck(s.N.VerifFsState(), FsckOpts{Exact: true, Allocators: true, AllowHalfFreed: crashed})
+			})
+			if o.Slow {
+				t.Skip("too slow")
+			}
+			if o.Bad() {
+				fail("%s: %v", when, o)
+			}
+			if err := rep.Err(); err != nil {
+				fail("%s: %v", when, err)
+			}
+			api := s.API()
+			for _, f := range files {
+				want := patternData(f.tag, f.blocks*BlockSize)
+				for off := uint64(0); off < f.blocks; off += 400 {
+					n := f.blocks - off
+					if n > 400 {
+						n = 400
+					}
+					r := api.NFSPROC3_READ(nt.READ3args{File: f.fh, Offset: nt.Offset3(off * BlockSize), Count: nt.Count3(n * BlockSize)})
+					if r.Status != nt.NFS3_OK || !bytes.Equal(r.Resok.Data, want[off*BlockSize:(off+n)*BlockSize]) {
+						fail("%s: file %s no longer holds what was written to it (READ at block %d: status %d)", when, f.name, off, r.Status)
+					}
+				}
+			}
+		}
+		// allocate well into the second (third) bitmap block
+		target := size - 1540 - uint64(rapid.IntRange(50, 600).Draw(t, "leave"))
+		used := uint64(0)
+		for used+600 < target {
+			n := uint64(rapid.IntRange(1500, 6000).Draw(t, "blocks"))
+			if used+n > target {
+				n = target - used
+			}
+			if !mk(n) {
+				break
+			}
+			used += n + n/512 + 2
+		}
+		beyond := s.N.VerifFsState().Balloc.NumFree() < size-nb
+		for round := 0; round < rapid.IntRange(1, 3).Draw(t, "rounds"); round++ {
+			// remove some files, restart, allocate again
+			api := s.API()
+			var keep []*bf
+			for _, f := range files {
+				if rapid.IntRange(0, 2).Draw(t, "remove") == 0 {
+					api.NFSPROC3_REMOVE(nt.REMOVE3args{Object: nt.Diropargs3{Dir: s.RootFH(), Name: nt.Filename3(f.name)}})
+					hist = append(hist, "remove "+f.name)
+				} else {
+					keep = append(keep, f)
+				}
+			}
+			files = keep
+			if rapid.Bool().Draw(t, "crash") {
+				if len(files) > 0 {
+					api.NFSPROC3_COMMIT(nt.COMMIT3args{File: files[0].fh})
+				}
+				s.StopCrash()
+				s.start()
+				crashed = true
+				hist = append(hist, "stop with the shrinker interrupted, restart")
+			} else {
+				if len(files) > 0 {
+					api.NFSPROC3_COMMIT(nt.COMMIT3args{File: files[0].fh})
+				}
+				s.Quiesce()
+				s.Restart()
+				hist = append(hist, "restart")
+			}
+			verifyAllocOnly := Fsck(s.N.VerifFsState(), FsckOpts{Allocators: true, AllowHalfFreed: true})
+			for _, p := range verifyAllocOnly.Problems {
+				if strings.Contains(p, "allocator") {
+					fail("right after the restart: %s", p)
+				}
+			}
+			for i := 0; i < rapid.IntRange(1, 4).Draw(t, "more"); i++ {
+				if !mk(uint64(rapid.IntRange(100, 3000).Draw(t, "blocks2"))) {
+					break
+				}
+			}
+			verify(fmt.Sprintf("after round %d", round))
+		}
+		St.Eval(1)
+		if beyond {
+			St.NT(Hash("bigdisk", size, hist))
+			St.Class("big_disk_case_allocating_beyond_the_first_bitmap_block")
+		}
+		if St.WantSample(beyond) {
+			St.Sample(map[string]any{"kind": "disk with several bitmap blocks", "disk": size, "history": headLog(hist, 40)}, beyond)
+		}
+	})
+}
